@@ -65,11 +65,17 @@ PROPS = {
             "note": "model fidelity is sampled on every run; compress/flate is a parameter with the round-trip law as hypothesis (MsgOK.codec, "
                     "evaluated on the observed tables per compressed message); text payloads are restricted to valid UTF-8 (invalid text is refused: "
                     "c12_invalid_text_not_delivered) and ReadLimit is 0 in c12_roundtrip; the theorem is over the driver's appWrite sequence; the "
-                    "upgrade hand-off (101 response and first frames in one read) is covered by the correspondence and an oracle, not by a theorem; the "
+                    "upgrade hand-off: c12_handoff proves that Model/WsUp.upFeed (the fold of upParse the driver runs on H lines) on any segmentation of a "
+                    "101 response ++ websocket bytes equals feed on the websocket bytes; the response is only recognised by its 'HTTP/1.1 101 ' prefix "
+                    "and its first CR LF CR LF, the HTTP grammar of the response is C06-C08's; the "
                     "little-endian word load/xor/store = bytewise xor step of maskXOR is trusted and checked by the c12-mask oracle (all lengths 0..300); "
                     "opening handshake (Model/WsHandshake.lean: Upgrader.commCheck/commResponse, Dialer request/validation, newConn): structured "
                     "requests/responses with canonical header keys (HTTP syntax is C06-C09), SHA-1 is a parameter observed per case, the origin hook's "
-                    "verdict is an input; token lists are read by the model's scanner and compared with an independent reading by the oracle",
+                    "verdict is an input; token lists are read by the model's scanner and compared with an independent reading by the oracle; "
+                    "Env.deflate/Env.inflate are abstract: c12_trunc_tail (truncWriter and flateReaderTail are inverse) is a stand-alone lemma not "
+                    "connected to them, and the compression level only varies the observed tables; control frames are interleaved BETWEEN messages "
+                    "only in c12_roundtrip (control frames between the fragments of one message are covered on the receive side by c13_partial and "
+                    "by the generator, not by the round-trip theorem); the driver calls Ws.feed / Ws.upParse / Ws.appWrite of Model/ themselves",
             "technique": "Lean 4 proof (induction over frame and segment lists) + differential correspondence"},
         "lean": ["NbioVerif.Properties.C12"], "drivers": ["wsdrv"], "harness": ["hws"],
         "facts": [ws_facts],
@@ -90,7 +96,13 @@ PROPS = {
             "note": "model fidelity is sampled; the specification (Model/Rfc6455.lean) imports nothing of the model: decoder, byte order, unmasking, "
                     "RFC 3629 UTF-8 and close-code classes are written independently and proved equal to the model's helpers (c13_spec_helpers, "
                     "c13_closeCode_rfc); inflation is a parameter of the specification tied to the endpoint's decompressor by the hypothesis InflAgrees; "
-                    "masking direction: known finding (c13_mask_counterexample, c13_partial, c13_masked)",
+                    "masking direction: known finding (c13_mask_counterexample, c13_partial, c13_masked); "
+                    "InflAgrees equates the specification's infl with the model's readAll on the observed inflate script (the independent inflate is "
+                    "the Go twin's, compared through tinfl=/exp= on every case); 'fails the connection' = Parse returns an error or the handler closed "
+                    "the conn: the engine's close-on-Parse-error is harness glue; c13_partial/c13_masked assume ReadLimit = 0 (the read-limit test is "
+                    "about segments); the upgrade hand-off lines (H) are computed by Model/WsUp.upParse: c13_partial_handoff (through c12's "
+                    "upFeed_handoff) carries the theorem behind a hand-off; M/T/Q/P/Z lines of the shared stream are computed by modules outside "
+                    "C13's closure (over-comparison)",
             "technique": "Lean 4 proof (decoder agreement + induction over the frame list, decide over regenerated tables) + differential correspondence"},
         "lean": ["NbioVerif.Properties.C13", srcgen.BRIDGE_WS], "drivers": ["wsdrv"], "harness": ["hws"],
         "facts": [ws_facts, srcgen.src_facts],
@@ -113,7 +125,11 @@ PROPS = {
             "note": "model fidelity is sampled; allocator capacities and reader chunking are inputs (bytes requested from the allocator are not "
                     "compared); termination of readAll is not a theorem: the loop is structurally recursive on the observed Read results, a "
                     "no-progress Read is outside the reader contract (stuck) and a spinning implementation is caught by the hang oracle; "
-                    "read-limit clause proved as partial (known finding ws-readlimit-first-read)",
+                    "read-limit clause proved as partial (known finding ws-readlimit-first-read); 'fails the connection' = Parse returns an error: "
+                    "the close itself is the engine's, harness glue; c15_1009 assumes the conn was still open when the reply was written; the upgrade "
+                    "hand-off lines (H) are computed by Model/WsUp.upParse: c15_delivered_within_handoff carries the delivered bound behind a hand-off "
+                    "(no bound is claimed for the HTTP response bytes before the upgrade: ReadLimit of the HTTP parser, C08); M/T/Q/P/Z lines of the "
+                    "shared stream are computed by modules outside C15's closure (over-comparison)",
             "technique": "Lean 4 proof (invariant by induction over the frame loop and the segment list) + differential correspondence"},
         "lean": ["NbioVerif.Properties.C15", srcgen.BRIDGE_WS], "drivers": ["wsdrv"], "harness": ["hws"],
         "facts": [ws_facts, srcgen.src_facts],
